@@ -217,7 +217,7 @@ int main(int argc, char **argv) {
         run_set(set, n, kind, 0);
         if (i % 7 == 3) run_set(set, n, kind, 1 + (i / 7) % 3);                   /* error paths: allocator contract */
     }
-    for (int i = 0; i < (quick ? 12 : 90); i++) { int res = quick ? i % 2 : i % 3; if (!quick && i % 30 == 29) res = 3; int n = gen_belt(set, cap, res, i); if (n > 0) run_set(set, n, "belt", 0); }
+    for (int i = 0; i < (quick ? 12 : 90); i++) { int res = quick ? i % 2 : i % 3; int n = gen_belt(set, cap, res, i); if (n > 0) run_set(set, n, "belt", 0); }
     /* error path through normalisation: all base cells but two far apart (outside the domain: reaches the poles) */
     { H3Index r0[122]; getRes0Cells(r0); int n = 0; for (int i = 0; i < 122; i++) if (i != 30 && i != 90) set[n++] = r0[i]; run_set(set, n, "globe-minus-two", 0); }
     { H3Index r0[122]; getRes0Cells(r0); run_set(r0, 122, "globe", 0); }
